@@ -32,6 +32,28 @@ def gen(wd, name, mode, maxdepth=1, maxlen=2, maxatt=2, maxrefs=2, servariant="r
                    tlcseed=tlcseed, timeout=timeout)
 
 
+NR_CFG = """SPECIFICATION Spec
+CONSTANTS
+  MaxDepth = {maxdepth}
+  MaxLen = {maxlen}
+  InitMode = "{initmode}"
+  ToVariant = "{variant}"
+INVARIANTS SelfContained NothingRetained {export}
+PROPERTIES Terminates
+"""
+
+
+def gen_nested_recv(wd, name, maxdepth=1, maxlen=2, variant="swap", export=True, simulate=None, depth=None, tlcseed=None,
+                    workers=8, timeout=3000):
+    """NestedRecv.tla: values whose Deserialize impls receive and decode another message on the same thread."""
+    cfg = os.path.join(wd, name + ".cfg")
+    with open(cfg, "w") as f:
+        f.write(NR_CFG.format(maxdepth=maxdepth, maxlen=maxlen, initmode="random" if simulate else "all", variant=variant,
+                              export="Export" if export else ""))
+    return run_tlc(os.path.join(SPEC, "MCNestedRecv.tla"), cfg, workers=workers, simulate=simulate, depth=depth,
+                   tlcseed=tlcseed, timeout=timeout)
+
+
 def cases_of(r):
     out = []
     seen = set()
@@ -46,6 +68,7 @@ def cases_of(r):
 
 
 def replay(cases, variant="os", timeout=3000):
+    role = "nrecv" if cases and cases[0].get("mode") == "nrecv" else "script"
     for i, c in enumerate(cases):
         c["id"] = i
     verdicts = [None] * len(cases)
@@ -53,7 +76,7 @@ def replay(cases, variant="os", timeout=3000):
     while pos < len(cases):
         chunk = cases[pos:]
         stdin = "\n".join(json.dumps(c) for c in chunk) + "\n"
-        p = run_harness(variant, ["script"], stdin=stdin, timeout=timeout, env={"RUST_BACKTRACE": "0"})
+        p = run_harness(variant, [role], stdin=stdin, timeout=timeout, env={"RUST_BACKTRACE": "0"})
         last_begin = None
         for line in p.stdout.splitlines():
             if not line.startswith("{"):
@@ -79,6 +102,10 @@ def shape(c):
         def sk(s):
             return [(x["k"], sk(x["inner"]), x["alive"], x["swallow"]) if x["k"] == "N" else x["k"] for x in s]
         return sk(c["script"])
+    if c["mode"] == "nrecv":
+        def rk(s):
+            return [("NR", rk(x["inner"])) if x["k"] == "NR" else x["k"] for x in s]
+        return ("nrecv", rk(c["script"]))
     if c["mode"] == "de":
         return (c["nch"], c["nshm"], [(r["k"], r["i"]) for r in c["refs"]])
     return (c["mode"], c.get("ty"), len(c.get("bytes", [])), tuple(c.get("kinds", [])))
